@@ -1,6 +1,7 @@
 package main
 
 import (
+	"go/token"
 	"fmt"
 	"sort"
 	"strings"
@@ -340,6 +341,33 @@ func runC14(r *Run, p *Prog) {
 			}
 		}
 		r.Ob("L5", shortName(sd), "Shutdown acts synchronously (starts no goroutine)", sd.Pos(), nogo, "Shutdown defers its work to a goroutine: it can return before the listener is closed")
+		// Shutdown may be issued at any moment, also by a method handler: it waits for nothing the serving call or a
+		// handler has to provide (no channel operation, no WaitGroup/Cond wait, no sleep) besides the mutex
+		sdv := p.Inlined(sd, nil)
+		var blocker ssa.Instruction
+		for _, b := range sdv.Blocks {
+			for _, in := range b.Instrs {
+				switch x := in.(type) {
+				case *ssa.UnOp:
+					if x.Op == token.ARROW {
+						blocker = in
+					}
+				case *ssa.Select, *ssa.Send:
+					blocker = in
+				case ssa.CallInstruction:
+					switch calleeName(x.Common()) {
+					case "sync.WaitGroup.Wait", "sync.Cond.Wait", "time.Sleep":
+						blocker = in
+					}
+				}
+			}
+		}
+		pos := sd.Pos()
+		if blocker != nil {
+			pos = blocker.Pos()
+		}
+		r.Ob("L5", shortName(sd), "Shutdown waits for nothing but the mutex", pos, blocker == nil,
+			"Shutdown blocks on a channel, a WaitGroup or a timer: issued from a method handler (or while a handler needs the caller) it waits for the serving call, which waits for that handler - neither returns")
 	})
 	// ---- L6 Bind
 	r.Guard("L6", func() {
